@@ -239,7 +239,7 @@ func RunC15(env *Env, job *E1Job) *E1Res {
 		hk := ""
 		for slot := 0; slot < 4; slot++ {
 			if h := ro.Handles[slot]; h != nil {
-				hk += fmt.Sprintf("h%d:%s:%d:r%v:w%v;", slot, h.Path, h.Flags, h.Reads > 0, h.Writes > 0)
+				hk += fmt.Sprintf("h%d:%s:%d:r%v:w%v:s%v;", slot, h.Path, h.Flags, h.Reads > 0, h.Writes > 0, h.Seeks > 0)
 			}
 		}
 		res.Key = hashKey(base, tapeBefore, hk)
